@@ -111,6 +111,22 @@ def api_decls():
     return _api_cache
 
 
+_SPARSE = {}
+
+
+def sparse(data, total):
+    """address of a private anonymous mapping of `total` bytes (never reserved: only touched pages exist) that starts with
+    `data` and is zero afterwards - lets a parser be handed a declared length of 2^32 + len (a length that only differs
+    above bit 31) without 4 GiB of memory.  One mapping per size is kept and reused."""
+    import mmap
+    m = _SPARSE.get(total)
+    if m is None:
+        m = mmap.mmap(-1, total, flags=mmap.MAP_PRIVATE | mmap.MAP_ANONYMOUS | getattr(mmap, "MAP_NORESERVE", 0x4000))
+        _SPARSE[total] = m
+    m[0:len(data)] = bytes(data)
+    return ctypes.addressof(ctypes.c_char.from_buffer(m))
+
+
 def buf(n_or_bytes):
     if isinstance(n_or_bytes, int):
         return ctypes.create_string_buffer(n_or_bytes)
